@@ -36,4 +36,17 @@ MutParent(par, muts, i, n) ==
       hit == {q \in 1..Len(path) : \E r \in 1..Len(muts) : muts[r].node = path[q]}
   IN IF same # {} THEN Max(same) - 1
      ELSE IF hit = {} THEN NULL ELSE Max({r \in 1..Len(muts) : muts[r].node = path[Min(hit)]}) - 1
+
+\* ---- wide trees (hundreds of children under one node): the minimum in closed form ----------------------------------
+\* counts[a + 1] = number of (non-missing) tips observed in state a.  Star: one internal root above all tips; the root takes
+\* some state s (one change above the root if s differs from a fixed ancestral state) and every tip not in s changes.
+SumC(q) == FoldSet(LAMBDA i, acc : acc + q[i], 0, DOMAIN q)
+StarMin(counts, fixed) ==
+  LET n == SumC(counts) A == DOMAIN counts IN
+  IF fixed = -1 THEN n - Max({counts[a] : a \in A})
+  ELSE Min({(IF a = fixed + 1 THEN 0 ELSE 1) + n - counts[a] : a \in A})
+\* forest of isolated samples (every tip is its own root): the ancestral state is shared, each tip in another state changes once
+ForestMin(counts, fixed) ==
+  LET n == SumC(counts) A == DOMAIN counts IN
+  IF fixed = -1 THEN n - Max({counts[a] : a \in A}) ELSE n - counts[fixed + 1]
 =============================================================================
